@@ -312,6 +312,16 @@ func Execute(b *[]byte, p unsafe.Pointer, s *vars.Stack, flags uint64, prog *ir.
 				pc = ins.Vi()
 				continue
 			}
+		case ir.OP_is_zero_f4:
+			if *(*float32)(p) == 0 {
+				pc = ins.Vi()
+				continue
+			}
+		case ir.OP_is_zero_f8:
+			if *(*float64)(p) == 0 {
+				pc = ins.Vi()
+				continue
+			}
 		case ir.OP_empty_arr:
 			if has_opts(flags, alg.BitNoNullSliceOrMap) {
 				buf = append(buf, '[', ']')
